@@ -629,8 +629,10 @@ func (ev *Evaluator) Enumerate(run func() Value) []TopRun {
 	ev.frames = append(ev.frames, f)
 	defer func() { ev.frames = ev.frames[:len(ev.frames)-1] }()
 	var out []TopRun
+	nloop0 := ev.nloop
 	for {
 		f.memo = map[string]int{}
+		ev.nloop = nloop0
 		var res Value
 		nf := len(ev.frames)
 		nl := len(ev.loops)
